@@ -74,11 +74,25 @@ func (fst *FSTree) buildFilePath(key string, checkKeyLength bool) (string, error
 	}
 	// build filepath
 	dstPath := filepath.Join(fst.basePath, key) // Join also calls Clean()
-	if !strings.HasPrefix(dstPath, fst.basePath) {
+	if !fst.inScope(dstPath) {
 		return "", fmt.Errorf("fstree: key integrity check failed, compiled path is %s", dstPath)
 	}
 	// return
 	return dstPath, nil
+}
+
+// inScope returns whether the given (cleaned) path is the base path itself or
+// lies below it. A plain prefix comparison is not enough, as it would also
+// accept sibling directories that merely start with the name of the base path.
+func (fst *FSTree) inScope(path string) bool {
+	if path == fst.basePath {
+		return true
+	}
+	scope := fst.basePath
+	if !strings.HasSuffix(scope, string(filepath.Separator)) {
+		scope += string(filepath.Separator)
+	}
+	return strings.HasPrefix(path, scope)
 }
 
 // Get returns a database record.
@@ -199,7 +213,7 @@ func (fst *FSTree) queryExecutor(walkRoot string, queryIter *iterator.Iterator, 
 
 		if info.IsDir() {
 			// skip dir if not in scope
-			if !strings.HasPrefix(path, fst.basePath) {
+			if !fst.inScope(path) {
 				return filepath.SkipDir
 			}
 			// continue
@@ -207,7 +221,7 @@ func (fst *FSTree) queryExecutor(walkRoot string, queryIter *iterator.Iterator, 
 		}
 
 		// still in scope?
-		if !strings.HasPrefix(path, fst.basePath) {
+		if !fst.inScope(path) {
 			return nil
 		}
 
